@@ -55,8 +55,9 @@ def flags_for(role: str, pool: bool = False, events: bool = False) -> Any:
         key = role + '+events' + ('+pool' if pool and role == 'forward' else '')
         if role == 'web':
             from vf.props import c07
-            if _FLAGS.get('web_dir') != c07.static_dir():
+            if _FLAGS.get(key + ':dir') != c07.static_dir():      # the static directory is per process and per shard
                 _FLAGS.pop(key, None)
+                _FLAGS[key + ':dir'] = c07.static_dir()
         if key not in _FLAGS:
             base = flags_for(role, pool)
             argv = {'forward': ['--threadless'] + (['--enable-conn-pool'] if pool else []),
@@ -123,7 +124,8 @@ def run_case(c: Dict[str, Any]) -> Dict[str, Any]:
     raws = [render_request(role, r, i) for i, r in enumerate(c['requests'])]
     reqs = [(raw, [x for x in r.get('cuts', []) if 0 < x < len(raw)]) for raw, r in zip(raws, c['requests'])]
     client = ReactiveClient('client', reqs, pipelined=c['pipelined'], packing=c.get('packing') or None)
-    w.add_client(client)
+    # per-send caps on the proxy's socket towards the client: several queued responses meet short and refused writes
+    w.add_client(client, plan={'caps': c.get('caps_client')} if c.get('caps_client') else None)
     origins: Dict[str, ReactiveOrigin] = {}
 
     def fac(world: K.World, addr: Tuple[str, int], idx: int) -> Tuple[K.Peer, Optional[Dict[str, Any]]]:
@@ -288,6 +290,8 @@ def cases(draw: Any, role: str) -> Dict[str, Any]:
     pipelined = draw(st.booleans())
     c = {'role': role, 'requests': reqs, 'pipelined': pipelined, 'pool': role == 'forward' and draw(st.integers(0, 3)) == 0,
          'events': draw(st.integers(0, 3)) == 0,
+         'caps_client': draw(st.lists(st.sampled_from([0, 1, 2, 7, 64, 1460, None]), min_size=1, max_size=6).filter(lambda l: any(x != 0 for x in l)))
+         if draw(st.integers(0, 2)) == 0 else None,
          'packing': draw(st.lists(st.integers(1, 4), min_size=1, max_size=4)) if pipelined and draw(st.booleans()) else [],
          'schedule': draw(st.lists(st.integers(0, 3), max_size=40))}
     return c
@@ -310,6 +314,8 @@ def run_shard(spec: Dict[str, Any], seed: int, acc: Any) -> None:
             labs.append('conn-pool')
         if c.get('events'):
             labs.append('events-enabled')
+        if c.get('caps_client'):
+            labs.append('short-writes-towards-client')
         if any(q.get('no_host') for q in c['requests']):
             labs.append('request-without-host-field')
         if any(q.get('obs_text') for q in c['requests']):
